@@ -3,7 +3,7 @@ from vlib import core, e1
 
 OPS = dict(END=0, CREATE=1, TCREATE0=2, TCREATE1=3, ATTACH=4, INFL_MSG=5, INFL_READ=6, INFL_TIMER=7,
            SHUT=8, SHUT_B=9, SHUT_W=10, WAIT=11, DESTROY=12, QUIESCE=13, INFL_BUSY=14, GATE_B=15, HOOK_WAITS=16,
-           INFL_STUCK=17, INFL_SYNC_BCAST=18, LATE_AOP=19, HOOK_GATE=20, TIMER_ABS=21, INFL_CBSEND_SKIP=22, INFL_CBSEND_OTHER=23)
+           INFL_STUCK=17, INFL_SYNC_BCAST=18, LATE_AOP=19, HOOK_GATE=20, TIMER_ABS=21, INFL_CBSEND_SKIP=22, INFL_CBSEND_OTHER=23, ATTACH_H=24)
 FAULTS_CREATE = 'SC_F_CALLOC|SC_F_EPOLL_CREATE|SC_F_PIPE2|SC_F_EPOLL_CTL|SC_F_PTHREAD_CREATE'
 
 
@@ -58,6 +58,12 @@ def scripts():
             for wait in ('WAIT', 'none'):
                 out.append(('attach-refused/W%d/%s/%s' % (W, shut.replace(',', '+'), wait), W, '0',
                             ['CREATE', 'TCREATE0', 'ATTACH'] + shut.split(',') + ([] if wait == 'none' else [wait]) + ['DESTROY']))
+    # slot 0 is served by a helper thread through attach_first; shutdown, wait and destroy come from the main thread
+    for W in (1, 2):
+        for shut in ('SHUT', 'SHUT_B,SHUT'):
+            for wait in ('WAIT', 'none'):
+                out.append(('attach-helper/W%d/%s/%s' % (W, shut.replace(',', '+'), wait), W, '0',
+                            ['CREATE', 'TCREATE1', 'ATTACH_H', 'QUIESCE'] + shut.split(',') + ([] if wait == 'none' else [wait]) + ['DESTROY']))
     # the workers' stop hooks call tp_shutdown_wait() themselves
     for W in (1, 2):
         for shut in ('SHUT', 'SHUT_B,SHUT', 'SHUT_W'):
@@ -117,7 +123,7 @@ def plan(tier, vs):
         if f[0] == 'fail':
             jobs.append((name, 1 if tier == 'quick' else 2, 0 if tier == 'quick' else 1))
             continue
-        if f[0] in ('attach-refused', 'hookwait', 'stuck', 'syncbcast', 'lateaop', 'stopaop', 'cbskip', 'cbdone-late'):
+        if f[0] in ('attach-refused', 'attach-helper', 'hookwait', 'stuck', 'syncbcast', 'lateaop', 'stopaop', 'cbskip', 'cbdone-late'):
             jobs.append((name, 1 if tier == 'quick' else 2, 1 if tier == 'quick' else 2))
             continue
         if f[0] == 'busy':
